@@ -85,6 +85,22 @@ func equivPeriod(a, b model.TimePeriodType, path string) (bool, string) {
 		}
 		return true, ""
 	}
+	if a.StartTime == nil && a.EndTime != nil {
+		// open start with an absolute end: re-expressed on the wire as the remaining duration
+		// (negative once it has elapsed) and read back against the clock - the same instant to the second
+		ta, err1 := a.EndTime.GetTime()
+		if b.EndTime == nil || b.StartTime != nil {
+			return false, path + ": end time lost"
+		}
+		tb, err2 := b.EndTime.GetTime()
+		if err1 != nil || err2 != nil {
+			return false, fmt.Sprintf("%s: unreadable end time (%v, %v)", path, err1, err2)
+		}
+		if d := ta.Sub(tb); d > 2200*time.Millisecond || d < -2200*time.Millisecond {
+			return false, fmt.Sprintf("%s: end time moved by %v (%s vs %s)", path, d, *a.EndTime, *b.EndTime)
+		}
+		return true, ""
+	}
 	if !reflect.DeepEqual(a, b) {
 		return false, fmt.Sprintf("%s: %s vs %s", path, world.JSON(a), world.JSON(b))
 	}
